@@ -47,6 +47,9 @@ type C12Case struct {
 	// instants, a failing write spins for a few microseconds of real time; only order-insensitive
 	// oracles are applied.
 	Tie bool `json:"tie,omitempty"`
+	// SlowFirstWriteUs: the socket write of every first transmission takes this long (virtual) to
+	// return after the datagram has left - a response can be back before the writer is
+	SlowFirstWriteUs int `json:"slow_first_write_us,omitempty"`
 }
 
 type txObs struct {
@@ -66,6 +69,7 @@ type failConn struct {
 	count map[int]int
 	fail  map[int]int // dest port -> transmission index whose write fails
 	spin  bool
+	slow  time.Duration // the first write to every destination returns this much later
 }
 
 func (f *failConn) WriteTo(b []byte, a net.Addr) (int, error) {
@@ -88,7 +92,12 @@ func (f *failConn) WriteTo(b []byte, a net.Addr) (int, error) {
 		return 0, errors.New("sim: injected write failure")
 	}
 
-	return f.PacketConn.WriteTo(b, a)
+	k, err := f.PacketConn.WriteTo(b, a)
+	if n == 0 && f.slow > 0 {
+		time.Sleep(f.slow)
+	}
+
+	return k, err
 }
 
 func trMapOf(c *turn.Client) *client.TransactionMap {
@@ -158,7 +167,7 @@ func runC12Inner(c *C12Case) c12Result { //nolint:cyclop,gocyclo,maintidx
 	if err != nil {
 		return c12Result{kind: "harness", msg: err.Error()}
 	}
-	fc := &failConn{PacketConn: csock, count: map[int]int{}, fail: map[int]int{}, spin: c.Tie}
+	fc := &failConn{PacketConn: csock, count: map[int]int{}, fail: map[int]int{}, spin: c.Tie, slow: time.Duration(c.SlowFirstWriteUs) * time.Microsecond}
 	off137, off17, off7 := 137*time.Microsecond, 17*time.Microsecond, 7*time.Microsecond
 	if c.Tie {
 		off137, off17, off7 = 0, 0, 0
@@ -352,6 +361,14 @@ func runC12Inner(c *C12Case) c12Result { //nolint:cyclop,gocyclo,maintidx
 		defer mu.Unlock()
 		rto := rtoOf(c)
 		sched, failOff := schedule(rto)
+		if slow := time.Duration(c.SlowFirstWriteUs) * time.Microsecond; slow > 0 {
+			// the retransmission timer starts when the first write returns
+			sched = append([]time.Duration{}, sched...)
+			for k := 1; k < len(sched); k++ {
+				sched[k] += slow
+			}
+			failOff += slow
+		}
 		closeOff := time.Duration(-1)
 		if c.CloseAtMs >= 0 {
 			closeOff = time.Duration(c.CloseAtMs)*time.Millisecond + off7
@@ -442,13 +459,17 @@ func runC12Inner(c *C12Case) c12Result { //nolint:cyclop,gocyclo,maintidx
 				}
 			}
 			// --- return time and value
+			slowRet := t0 + time.Duration(c.SlowFirstWriteUs)*time.Microsecond // the caller is back from the first write
+			if endAt < slowRet {
+				endAt = slowRet
+			}
 			if tx.Kind == "ignore" {
 				if o.retErr != nil && endHow != "write-error" {
 					res = c12Result{kind: "ignore-result-error", msg: fmt.Sprintf("%s: fire-and-forget transaction returned %v", ctx, o.retErr)}
 
 					return
 				}
-				if o.retAt != t0 {
+				if o.retAt != slowRet {
 					res = c12Result{kind: "return-time", msg: fmt.Sprintf("%s: fire-and-forget call returned at %v, started at %v", ctx, o.retAt, t0)}
 
 					return
@@ -579,6 +600,17 @@ func genC12(rt *rapid.T) *C12Case {
 			tx.WriteFailAt = rapid.IntRange(0, 6).Draw(rt, "writeFailAt")
 		}
 		c.Txs = append(c.Txs, tx)
+	}
+	if rapid.IntRange(0, 3).Draw(rt, "slowWrite") == 0 {
+		noFail := true
+		for _, tx := range c.Txs {
+			noFail = noFail && tx.WriteFailAt < 0
+		}
+		if noFail {
+			c.SlowFirstWriteUs = rapid.SampledFrom([]int{400, 400, 900}).Draw(rt, "slowWriteUs")
+
+			return c // (no Close in these cases: the timetable would depend on where in the write it lands)
+		}
 	}
 	if rapid.IntRange(0, 4).Draw(rt, "close") == 0 {
 		c.CloseAtMs = rapid.IntRange(0, int(failAt/time.Millisecond)+3500).Draw(rt, "closeAt")
